@@ -80,8 +80,7 @@ MCNetCInits == { [lat |-> 16, enc |-> [ch |-> <<8, 8>>, ks |-> <<3, 3>>, st |-> 
 
 (* ---- M2: print the configuration, the initial states and every transition once ---------------- *)
 DumpInit == (TLCGet("level") = 1) => PrintT(<<"INIT", ToJson(arch)>>)
-Dump == PrintT(<<"TR", ToJson([from |-> arch, act |-> act', to |-> arch',
-                               surv |-> [n \in Survivors(Cfg, arch, arch') |-> CommonCells(Cfg, arch, arch', n)]])>>)
+Dump == PrintT(<<"TR", ToJson([from |-> arch, act |-> act', to |-> arch', surv |-> Common(Cfg, arch, arch')])>>)
 DumpCfg == PrintT(<<"CFG", ToJson(Cfg)>>)
 ASSUME DumpCfg
 ================================================================================
